@@ -151,6 +151,7 @@ fn p_c16() -> Profile {
     p.hostile_callers = true;
     p.huge_fees = true;
     p.sweep = true;
+    p.extreme_periods = true;
     p.w_query = 6;
     p.w_owner = 3;
     p.w_validator = 2;
